@@ -69,7 +69,14 @@ type Translator struct {
 	ghosts         map[string]string
 	reflectOf      map[string]*Val
 	protected      []string
+	protectedTypes map[string]types.Type
 	appendView     bool
+	uninterpStrings bool
+	finfo          []factInfo
+	fidx           map[string][]int
+	fidxN          int
+	defCount       map[string]int
+	noPrune        bool
 	autoRecvNonNil bool
 	safeOnly       bool
 }
@@ -82,7 +89,7 @@ type closureInfo struct {
 func newTranslator(prog *ssa.Program, spkg *ssa.Package, c *Contracts) *Translator {
 	tr := &Translator{prog: prog, spkg: spkg, tpkg: spkg.Pkg, fset: prog.Fset, contracts: c, u: newUniverse(),
 		typeCache: map[string]types.Type{}, recDefs: map[string]*recInfo{}, globals: map[string]bool{}, funcVals: map[string]bool{},
-		closures: map[string]*closureInfo{}, nameCount: map[string]int{}, trusted: map[string]bool{}, ghosts: map[string]string{}, reflectOf: map[string]*Val{}}
+		closures: map[string]*closureInfo{}, nameCount: map[string]int{}, trusted: map[string]bool{}, ghosts: map[string]string{}, reflectOf: map[string]*Val{}, protectedTypes: map[string]types.Type{}, defCount: map[string]int{}}
 	for _, cn := range []string{"MBool", "MInt", "MReal", "MStr", "MPtr", "MSlice", "MIface", "ALLOC", "GCnt", "GLast"} {
 		tr.u.comp(cn)
 	}
@@ -129,6 +136,7 @@ func (tr *Translator) assume(f string) { tr.fact(implies(tr.reach, f)) }
 
 func (tr *Translator) define(prefix, sort, e string) string {
 	n := tr.u.freshConst(prefix, sort)
+	tr.defCount[n]++
 	tr.fact(eq(n, e))
 	return n
 }
@@ -437,6 +445,8 @@ func (fc *fctx) name(reg string, x *Val) *Val {
 	}
 	n := tr.u.fresh(fc.prefix + reg)
 	tr.u.decls = append(tr.u.decls, fmt.Sprintf("(declare-const %s %s)", n, x.Sort))
+	tr.u.genConsts[n] = true
+	tr.defCount[n]++
 	tr.fact(eq(n, e))
 	return mkVal(n, x.Sort, x.T)
 }
@@ -680,8 +690,31 @@ func (fc *fctx) enterBlock(b *ssa.BasicBlock) bool {
 
 func (tr *Translator) havocAll() {
 	var prot []string
+	var protPtr []string
+	mptrOld := tr.cur.get(tr.u, "MPtr")
 	for _, a := range tr.protected {
 		prot = append(prot, eq("(obase a)", a))
+	}
+	// TREE assumption: the holder objects a local value points to (SchemaOrBool, SchemaOrArray, ...) keep their
+	// pointer fields across a call that received only sub-values of the local (Go values of the model are trees)
+	for _, a := range tr.protected {
+		t, ok := tr.protectedTypes[a]
+		if !ok {
+			continue
+		}
+		for _, l := range tr.u.leaves(t) {
+			if l.comp != "MPtr" {
+				continue
+			}
+			if _, ok := l.T.Underlying().(*types.Pointer); !ok {
+				continue
+			}
+			p := "(select " + mptrOld + " " + tr.u.leafAddr(a, t, l.path) + ")"
+			protPtr = append(protPtr, and(not(eq(p, "0")), eq("(obase a)", "(obase "+p+")")))
+		}
+	}
+	if len(protPtr) > 0 {
+		tr.trusted["TREE: pointer fields of holder objects referenced by a local value are not changed by callees that received only sub-values (model values are trees)"] = true
 	}
 	for _, c := range append([]string{}, tr.u.comps...) {
 		if c == "ALLOC" {
@@ -694,7 +727,11 @@ func (tr *Translator) havocAll() {
 		n := tr.havocComp(c)
 		// local variables whose address never leaves the function keep their contents across any call
 		if len(prot) > 0 && strings.HasPrefix(tr.u.compSort[c], "(Array Int ") && strings.HasPrefix(c, "M") && !strings.HasPrefix(c, "MD_") && !strings.HasPrefix(c, "MV_") && c != "MLen" {
-			tr.fact(fmt.Sprintf("(forall ((a Int)) (! (=> %s (= (select %s a) (select %s a))) :pattern ((select %s a))))", or(prot...), n, old, n))
+			cond := or(prot...)
+			if (c == "MPtr" || c == "MSlice") && len(protPtr) > 0 {
+				cond = or(append([]string{cond}, protPtr...)...)
+			}
+			tr.fact(fmt.Sprintf("(forall ((a Int)) (! (=> %s (= (select %s a) (select %s a))) :pattern ((select %s a))))", cond, n, old, n))
 		}
 	}
 }
